@@ -109,10 +109,50 @@ def check(prop, tier, seed):
                     run.samples.append({"tlc_case": c["id"], "wire_expected_by_spec": "see FixWire!Wire", "m": c["m"]})
     run.extra["tlc_cases_replayed"] = ncases
 
+    # (1b) C11 / C03 / C18: every short byte string, raw and framed by the spec, through the transcribed decoder (Decoder.tla)
+    if prop in ("C11", "C03", "C18"):
+        maxlen, of = (5, 3) if quick else (7, 16)
+        if prop != "C11":
+            maxlen, of = (5, 6) if quick else (6, 8)
+        cfgd = ("SPECIFICATION Spec\nCONSTANTS\n MaxLen = %d\n Slice_ = %d\n Of_ = %d\nINVARIANT Inv\nCHECK_DEADLOCK FALSE\n" % (maxlen, seed % of, of))
+        resd = tlc("MCDecoder", cfgd, run.sub("mc-decoder"), ["FixWire.tla", "Decoder.tla", "MCDecoder.tla"], workers=NCPU, timeout=3000, heap="16g")
+        failsd = split_lines(resd, "MODEL-FAIL")
+        if failsd or not resd.ok:
+            raise Inconclusive("SPEC-ERROR: MCDecoder: %s %s\n%s" % (resd.error, str(failsd)[:500], resd.raw_tail[-1500:]))
+        run.add_mc(resd, "MCDecoder MaxLen=%d slice=%d/%d: NoOOB / termination of the transcribed decoder, lookup = field-boundary semantics" % (maxlen, seed % of, of))
+        raws = split_lines(resd, "RAW")
+        tmpl = {"tags": {"bs": [48], "bl": [57], "mt": [49, 49], "cs": [49, 48]}, "beginString": [70], "msgType": [48],
+                "header": [{"k": "kv", "tag": [57, 49], "ty": "string", "pop": False, "txt": [], "via": ""}],
+                "body": [{"k": "grp", "tag": [49], "tmpl": [{"k": "kv", "tag": [49, 57], "ty": "string", "pop": False, "txt": [], "via": ""},
+                                                            {"k": "kv", "tag": [57, 57], "ty": "int", "pop": False, "txt": [], "via": ""}], "entries": []},
+                         {"k": "kv", "tag": [57, 48], "ty": "string", "pop": False, "txt": [], "via": ""}],
+                "trailer": []}
+        rawcases = os.path.join(run.dir, "tlc-raw.ndjson")
+        pred = {}
+        with open(rawcases, "w") as f:
+            for r in raws:
+                for suffix, key, pk in (("", "input", "implValid"), ("/framed", "framed", "implValidFramed")):
+                    rid = r["id"] + suffix
+                    f.write(json.dumps({"id": rid, "tmpl": tmpl, "input": r[key], "lookup": [49, 48]}) + "\n")
+                    pred[rid + "/strict"] = r[pk]
+        obsr = os.path.join(run.dir, "obs-tlc-raw.ndjson")
+        sh([drv, "-mode", "rawreplay", "-cases", rawcases, "-out", obsr], timeout=3000)
+        obs_files.append(obsr)
+        drift = 0
+        with open(obsr) as f:
+            for line in f:
+                o = json.loads(line)
+                if o["id"] in pred and not pred[o["id"]] and o["outcome"] == "ok":
+                    drift += 1
+        run.extra["decoder_strings_replayed"] = 2 * len(raws)
+        run.extra["model_conformance"] = {"transcribed validateRaw rejects but the real decoder accepts (CONFORMANCE-DRIFT)": drift}
+        if drift:
+            run.notes.append("CONFORMANCE-DRIFT: %d strings are accepted by the real decoder although Decoder.tla!ValidateRaw rejects them (the transcription no longer mirrors the code)" % drift)
+
     # (2) replay on the real code + generated families
     if prop not in ("C11",):
         obs1 = os.path.join(run.dir, "obs-tlc.ndjson")
-        fam = "damage" if prop == "C03" else "none"
+        fam = "damage" if prop == "C03" else ("late" if prop in ("C17", "C02") else "none")
         sh([drv, "-mode", "replay", "-cases", cases_path, "-out", obs1, "-families", fam], timeout=3000)
         obs_files.append(obs1)
     obs2 = os.path.join(run.dir, "obs-gen.ndjson")
@@ -134,6 +174,13 @@ def check(prop, tier, seed):
                 others[r[0]] = others.get(r[0], 0) + 1
     if others:
         run.notes.append("rejections belonging to other properties in the same traces (decided by their own checks): %s" % json.dumps(others))
+    if prop == "C18":
+        # end-of-message detection on a connection (the CheckSum tag inside values / as a tag suffix, long fields)
+        import framing_checks
+        brej, bscns = framing_checks.boundary_rejects(run, seed, quick)
+        for r in brej:
+            rejects.append(["C18", r[1], "message boundaries delivered by a connection differ from the messages sent", r[3]])
+        run.extra["connection_boundary_scenarios"] = len(bscns)
     viol, kn = classify(prop, rejects)
     run.add_known(kn)
     seen = set()
